@@ -469,7 +469,9 @@ def json_names(F, rep):
             rep.unresolved("R2", "CurrencyAmount-fields", "fewer than two field names found in the serializer")
     # (b) Operation tags vs normalisation
     oser = [b for b in F.bodies.values() if "ser::Serialize for cgt_core::models::Operation<M>>::serialize" in b.id]
-    norm = F.find("models::normalize_operation_action")
+    # the input normaliser: the cgt_core function that rewrites a `&mut serde_json::Value` in place (upper-casing the tag)
+    norm = [x for x in F.bodies.values() if x.crate == "cgt_core" and x.kind == "fn" and any("&mut serde_json::value::Value" in x.local_ty(k + 1).replace("'_ ", "") for k in range(x.argc))
+            and any(parse_callee(t["callee"])[2] in ("to_uppercase", "to_ascii_uppercase", "to_lowercase", "to_ascii_lowercase") for _, t in x.calls())]
     if len(oser) != 1 or len(norm) != 1:
         rep.unresolved("R2", "Operation-tags", f"{len(oser)} derived serializers / {len(norm)} normalisers")
     else:
@@ -496,6 +498,14 @@ def json_names(F, rep):
                     k = _const_through(nb, a)
                     if k is not None and "str" in k:
                         remap_keys.add(k["str"])
+        for s_ in nb.reachable():
+            sw_ = nb.term(s_)
+            if sw_["k"] == "switch":
+                for x in subterms(tbn.operand(sw_["discr"])):
+                    if isinstance(x, tuple) and x and x[0] == "cmp" and x[1] in ("Eq", "Ne"):
+                        for side in (x[2], x[3]):
+                            if isinstance(side, tuple) and side and side[0] == "str":
+                                remap_keys.add(side[1])
         remap_vals = {s for s in nstrs if s.isupper() and s not in remap_keys and " " not in s and "'" not in s}
         rep.count("operation_tags", sorted(tags))
         rep.count("normaliser_remap", {"keys": sorted(remap_keys), "values": sorted(remap_vals)})
@@ -540,39 +550,48 @@ def json_names(F, rep):
 
 
 def mcp_routing(F, rep):
-    pi = [b for b in F.bodies.values() if b.crate == "cgt_mcp" and b.kind == "method" and b.id.endswith("::parse_input")]
-    if len(pi) != 1:
-        rep.unresolved("R3", "SNIFFER", f"{len(pi)} methods named parse_input in cgt_mcp")
-        return
-    b = pi[0]
-    tb = Terms(F, b, inline_depth=1)
-    ok = False
-    why = "input sniffer shape not recognised"
-    for s in b.reachable():
-        t = b.term(s)
-        if t["k"] != "switch":
+    import panics as P
+    from flow import effect_helpers
+    to_parser = effect_helpers(F, lambda cal: cal.endswith("parser::parse_file"), ("cgt_mcp",), P.user_written)
+    to_json = effect_helpers(F, lambda cal: "serde_json" in cal and "from_str" in cal, ("cgt_mcp",), P.user_written)
+    # the sniffer: the cgt_mcp function from which both readers are reached and that branches on a `starts_with` test
+    cands = []
+    for b in F.bodies.values():
+        if b.crate != "cgt_mcp" or b.kind not in ("fn", "method") or not P.user_written(F, b) or b.id not in to_parser or b.id not in to_json:
             continue
-        c = tb.operand(t["discr"])
-        if isinstance(c, tuple) and c and c[0] == "call" and parse_callee(c[1])[2] == "starts_with":
-            ch = c[2][1]
-            is_br = ch == ("int", ord("[")) or ch == ("str", "[")
-            true_t = t["otherwise"]
-            false_t = [x for v, x in t["targets"] if v == "0"]
-            tr = b.reach_from(true_t)
-            fr = b.reach_from(false_t[0]) if false_t else set()
-            json_true = any(b.term(x)["k"] == "call" and "serde_json" in b.term(x)["callee"] and "from_str" in b.term(x)["callee"] for x in tr)
-            dsl_false = any(b.term(x)["k"] == "call" and (b.term(x)["callee"].endswith("parse_dsl") or b.term(x)["callee"].endswith("parser::parse_file")) for x in fr)
-            json_false = any(b.term(x)["k"] == "call" and "serde_json" in b.term(x)["callee"] and "from_str" in b.term(x)["callee"] for x in fr - tr)
-            ok = is_br and json_true and dsl_false and not json_false
-            why = ("'['-prefixed input goes to serde_json::from_str, everything else to the DSL parser" if ok else
-                   f"sniffer tests starts_with({show(ch)}); json-on-true={json_true}, dsl-on-false={dsl_false}")
+        tb = Terms(F, b, inline_depth=1)
+        for s in b.reachable():
+            t = b.term(s)
+            if t["k"] == "switch":
+                c = tb.operand(t["discr"])
+                if isinstance(c, tuple) and c and c[0] == "call" and parse_callee(c[1])[2] == "starts_with":
+                    cands.append((b, tb, s, t, c))
+    if len(cands) != 1:
+        rep.unresolved("R3", "SNIFFER", f"{len(cands)} input sniffers (starts_with test in a function reaching both readers) in cgt_mcp")
+        return
+    b, tb, s, t, c = cands[0]
+    ch = c[2][1]
+    is_br = ch == ("int", ord("[")) or ch == ("str", "[")
+    true_t = t["otherwise"]
+    false_t = [x for v, x in t["targets"] if v == "0"]
+    tr = b.reach_from(true_t)
+    fr = b.reach_from(false_t[0]) if false_t else set()
+    is_json = lambda cal: ("serde_json" in cal and "from_str" in cal) or (cal in to_json and cal not in to_parser)
+    is_dsl = lambda cal: cal.endswith("parser::parse_file") or (cal in to_parser and cal not in to_json)
+    json_true = any(b.term(x)["k"] == "call" and is_json(b.term(x)["callee"]) for x in tr - fr)
+    dsl_false = any(b.term(x)["k"] == "call" and is_dsl(b.term(x)["callee"]) for x in fr - tr)
+    json_false = any(b.term(x)["k"] == "call" and is_json(b.term(x)["callee"]) for x in fr - tr)
+    dsl_true = any(b.term(x)["k"] == "call" and is_dsl(b.term(x)["callee"]) for x in tr - fr)
+    ok = is_br and json_true and dsl_false and not json_false and not dsl_true
+    why = ("'['-prefixed input goes to serde_json::from_str, everything else to the shared DSL parser" if ok else
+           f"sniffer tests starts_with({show(ch)}); json-on-true={json_true}, dsl-on-false={dsl_false}, json-on-false={json_false}, dsl-on-true={dsl_true}")
     rep.ob("R3", "parse_input:routing", ok, why, b.loc(), key="R3:parse_input:routing")
-    # parse_dsl reaches the shared parser, convert_to_dsl the shared writer
-    for name, target in (("parse_dsl", "parser::parse_file"), ("convert_to_dsl", "dsl::transactions_to_dsl")):
-        srcs = [x for x in F.bodies.values() if x.crate == "cgt_mcp" and (x.id.endswith("::" + name) or ("::" + name + "::{closure") in x.id)]
-        hit = any(t["callee"].endswith(target) for x in srcs for _, t in x.calls())
-        rep.ob("R3", f"{name}→{target.split('::')[-1]}", hit, f"{name} calls the shared {target}" if hit else
-               f"{name} does not call cgt_core::{target}", srcs[0].loc() if srcs else "", key=f"R3:{name}:shared")
+    # the DSL-writing tool reaches the shared writer
+    to_writer = effect_helpers(F, lambda cal: cal.endswith("dsl::transactions_to_dsl") or cal.endswith("dsl::transaction_to_dsl"), ("cgt_mcp",), P.user_written)
+    tools = [tid for tid, kids in P.mcp_tool_bodies(F).items() if "convert_to_dsl" in tid]
+    hit = any(tid in to_writer or any(k in to_writer for k in P.mcp_tool_bodies(F)[tid]) for tid in tools)
+    rep.ob("R3", "convert_to_dsl→transactions_to_dsl", hit, "the convert_to_dsl tool calls the shared writer" if hit else
+           "the convert_to_dsl tool does not reach cgt_core::dsl::transactions_to_dsl", F.bodies[tools[0]].loc() if tools else "", key="R3:convert_to_dsl:shared")
 
 
 def run(ctx, rep):
